@@ -329,6 +329,7 @@ def selftest(prop, traces, work):
     # (1)
     done1 = prop not in result_clauses
     done2 = done3 = False
+    tries2 = 0       # (a tree whose runs no longer conform to ParRun has no accepted run to corrupt: give up after a few)
     for tf in traces:
         for rid, lines in _run_events(tf):
             prog = json.loads(lines[0])
@@ -350,7 +351,8 @@ def selftest(prop, traces, work):
                 done1 = True
             sched = prog["mode"] != "free" and prog["p"]["cs"] < 0
             calls = [i for i, e in enumerate(evs) if e["e"] == "call" and e.get("a", 0) >= 1 and e["s"] == 1]
-            if sched and not done2 and len(calls) >= 2 and any(e["e"] == "end" and e["dstep"] == -1 for e in evs):
+            if sched and not done2 and tries2 < 6 and len(calls) >= 2 and any(e["e"] == "end" and e["dstep"] == -1 for e in evs):
+                tries2 += 1
                 pth0 = os.path.join(work, "selftest2a.ndjson")
                 open(pth0, "w").write("".join(lines))
                 c0 = conformance(prop, "quick", [pth0], work)["strict_conformance"]
@@ -373,6 +375,8 @@ def selftest(prop, traces, work):
                         c2 = conformance(prop, "quick", [pth], work)["strict_conformance"]
                         res["deleted_worker_end_rejected"] = c2["runs_rejected"] == 1
                         done3 = True
-            if done1 and done2 and done3:
+            if done1 and ((done2 and done3) or tries2 >= 6):
+                if not done2:
+                    res["position_and_event_corruption"] = "skipped: none of the first scheduled runs conforms to ParRun on this tree"
                 return res
     return res
